@@ -278,6 +278,56 @@ func genC13NodeRoots(r *hx.Rand) (coreCase, bool) {
 	return coreCase{FedSeed: seed, Query: "{ " + strings.Join(parts, " ") + " }", Kind: "query", Features: []string{"node-root", "directed:several-node-roots"}}, true
 }
 
+// genC13FanIn: directed stream — two root fields owned by two DIFFERENT services, both returning
+// Node objects with a leaf field owned by a THIRD service: the two root steps run concurrently
+// and both feed lookups into one batch of the third service, which rejects them all. Which
+// lookups fail is fixed; in which order they reach the parser is timing.
+func genC13FanIn(r *hx.Rand) (coreCase, int, bool) {
+	for try := 0; try < 40; try++ {
+		seed := r.U64() % 1000000
+		cf, err := buildCoreFed(seed, false, false)
+		if err != nil || cf.F.Spec.NumServices < 3 {
+			continue
+		}
+		base := func(t string) string { return strings.Trim(t, "[]!") }
+		type cand struct {
+			root  string
+			owner int
+			leafs map[int][]string // third-party owner -> leaf fields
+		}
+		var cands []cand
+		for _, q := range cf.F.Spec.Query {
+			ts := cf.F.Spec.Type(base(q.Type))
+			if ts == nil || !ts.Node || len(q.Args) > 0 {
+				continue
+			}
+			c := cand{root: q.Name, owner: q.Owner, leafs: map[int][]string{}}
+			for _, f := range ts.Fields {
+				if f.Name == "id" || len(f.Args) > 0 || cf.F.Spec.Type(base(f.Type)) != nil || cf.F.Spec.Abstract(base(f.Type)) != nil {
+					continue
+				}
+				c.leafs[f.Owner] = append(c.leafs[f.Owner], f.Name)
+			}
+			cands = append(cands, c)
+		}
+		for _, a := range cands {
+			for _, b := range cands {
+				if a.owner == b.owner || a.root == b.root {
+					continue
+				}
+				for x := 0; x < cf.F.Spec.NumServices; x++ {
+					if x == a.owner || x == b.owner || len(a.leafs[x]) == 0 || len(b.leafs[x]) == 0 {
+						continue
+					}
+					q := fmt.Sprintf("{ %s { %s } %s { %s } }", a.root, a.leafs[x][0], b.root, b.leafs[x][0])
+					return coreCase{FedSeed: seed, Query: q, Kind: "query", Features: []string{"directed:fan-in to a failing service"}}, x, true
+				}
+			}
+		}
+	}
+	return coreCase{}, 0, false
+}
+
 func runC13(ctx *Ctx) error {
 	ctx.Rep.Rule = "case = (generated federation incl. interfaces/unions, valid operation from the WILD generator profile, delay seed) sent k times to each of two independently built real gateways under seeded per-call delays, one case in four with every follow-up lookup of one service failing; " +
 		"oracle: identical canonical data, identical error set, identical multiset of sub-requests in every run; distinct = distinct case; non-trivial = ≥2 services"
@@ -316,6 +366,16 @@ func runC13(ctx *Ctx) error {
 		}
 		ctx.Rep.Count("stream:node-root")
 		c13Check(ctx, 500000+k, c13Case{coreCase: cc, Repeats: repeats * 2})
+	}
+	for k := 0; k < cases/5; k++ {
+		r := ctx.Rand.Fork()
+		cc, x, ok := genC13FanIn(r)
+		if !ok {
+			ctx.Rep.Count("stream:fan-in (no suitable federation)")
+			continue
+		}
+		ctx.Rep.Count("stream:fan-in to a failing service")
+		c13Check(ctx, 700000+k, c13Case{coreCase: cc, Repeats: repeats * 3, DelaySeed: r.U64()%1000 + 1, FaultSvc: 2*x + 1 + k%2})
 	}
 	for k := 0; k < cases/5; k++ {
 		r := ctx.Rand.Fork()
